@@ -109,14 +109,21 @@ theorem length_splitGo_odd (lines : List (Text × Bool)) (cur : Text) (first : B
 
 /-! #### The next/stop state machine -/
 
-/-- State right after `separate_into_sections` on a fresh submission holding `t`. -/
-def separated (t : Text) (marks : List Bool) (indep : Bool) : St :=
-  { main := (sectionsOf t marks).headD [], subs := [t], sections := sectionsOf t marks, separated := true,
-    idx := 0, independent := indep, offset := 0 }
+/-- The chunks in either mode (`takesNL`: the pattern's group also captures the separator's newline). -/
+def sectionsOfMode (takesNL : Bool) (t : Text) (marks : List Bool) : List Text :=
+  splitMode takesNL (zipMarks (splitLines t) marks)
 
-theorem step_separate (t : Text) (marks : List Bool) (indep : Bool) :
-    step { main := t } (.separate marks indep) = some (separated t marks indep) := by
-  simp [step, separated, sectionsOf]
+theorem sectionsOfMode_false (t : Text) (marks : List Bool) : sectionsOfMode false t marks = sectionsOf t marks := by
+  simp [sectionsOfMode, splitMode, sectionsOf]
+
+/-- State right after `separate_into_sections` on a fresh submission holding `t`. -/
+def separated (t : Text) (marks : List Bool) (indep takesNL : Bool) : St :=
+  { main := (sectionsOfMode takesNL t marks).headD [], subs := [t], sections := sectionsOfMode takesNL t marks,
+    separated := true, idx := 0, independent := indep, offset := 0 }
+
+theorem step_separate (t : Text) (marks : List Bool) (indep takesNL : Bool) :
+    step { main := t } (.separate marks indep takesNL) = some (separated t marks indep takesNL) := by
+  simp [step, separated, sectionsOfMode]
 
 /-- What `next_section` presents when it moves to list index `idx`. -/
 def presented (secs : List Text) (indep : Bool) (t : Text) (idx : Nat) : Text :=
@@ -193,18 +200,22 @@ theorem nexts_ok (t : Text) (secs : List Text) (indep : Bool) (k : Nat) (s : St)
         have := hoff2 (by omega) (by rw [e]; exact hle) hind
         rw [this, e]
 
-theorem separated_active (t : Text) (marks : List Bool) (indep : Bool) :
-    Active t (sectionsOf t marks) indep (separated t marks indep) := ⟨rfl, rfl, rfl⟩
+theorem separated_active (t : Text) (marks : List Bool) (indep takesNL : Bool) :
+    Active t (sectionsOfMode takesNL t marks) indep (separated t marks indep takesNL) := ⟨rfl, rfl, rfl⟩
 
 /-- Section k as presented to the tools is exactly the k-th chunk (independent mode) or the file up
     to and including it (cumulative mode); past the end the whole file stays, and nothing raises. -/
-theorem c17_section_k (t : Text) (marks : List Bool) (indep : Bool) (k : Nat) (hk : 0 < k) :
-    ∃ s, run { main := t } (.separate marks indep :: List.replicate k .next) = some s ∧
-      s.main = presented (sectionsOf t marks) indep t (2 * k) ∧ s.subs = [t] := by
-  obtain ⟨s, hrun, hact, -, hmain, -⟩ := nexts_ok t _ indep k _ (separated_active t marks indep)
-  refine ⟨s, ?_, ?_, hact.subs⟩
+theorem c17_section_k (t : Text) (marks : List Bool) (indep takesNL : Bool) (k : Nat) (hk : 0 < k) :
+    ∃ s, run { main := t } (.separate marks indep takesNL :: List.replicate k .next) = some s ∧
+      s.main = presented (sectionsOfMode takesNL t marks) indep t (2 * k) ∧ s.subs = [t] ∧
+      (sectionNumber (2 * k) ≤ sectionNumber ((sectionsOfMode takesNL t marks).length - 1) → indep = true →
+        s.offset = countNL (concat ((sectionsOfMode takesNL t marks).take (2 * k)))) := by
+  obtain ⟨s, hrun, hact, -, hmain, hoff⟩ := nexts_ok t _ indep k _ (separated_active t marks indep takesNL)
+  refine ⟨s, ?_, ?_, hact.subs, ?_⟩
   · simp [run, step_separate, hrun]
   · simpa [separated] using hmain hk
+  · intro hle hind
+    simpa [separated] using hoff hk (by simpa [separated] using hle) hind
 
 /-- Asking for a section past the end records the not-enough-sections feedback instead of failing. -/
 theorem c17_past_end_gives_feedback (t : Text) (secs : List Text) (indep : Bool) (s : St)
@@ -216,11 +227,11 @@ theorem c17_past_end_gives_feedback (t : Text) (secs : List Text) (indep : Bool)
   rw [hmain]; simp [presented]; omega
 
 /-- After sections are stopped (explicitly, or by the resolver's hook) the main code is the original text. -/
-theorem c17_main_code_restored (t : Text) (marks : List Bool) (indep : Bool) (k : Nat) (viaHook : Bool) :
-    ∃ s, run { main := t } (.separate marks indep :: List.replicate k .next ++ [if viaHook then .resolveHook else .stop])
+theorem c17_main_code_restored (t : Text) (marks : List Bool) (indep takesNL : Bool) (k : Nat) (viaHook : Bool) :
+    ∃ s, run { main := t } (.separate marks indep takesNL :: List.replicate k .next ++ [if viaHook then .resolveHook else .stop])
           = some s ∧ s.main = t ∧ s.subs = [] := by
-  obtain ⟨s, hrun, hact, -⟩ := nexts_ok t _ indep k _ (separated_active t marks indep)
-  have hrun' : ∀ op, run { main := t } (.separate marks indep :: List.replicate k .next ++ [op]) =
+  obtain ⟨s, hrun, hact, -⟩ := nexts_ok t _ indep k _ (separated_active t marks indep takesNL)
+  have hrun' : ∀ op, run { main := t } (.separate marks indep takesNL :: List.replicate k .next ++ [op]) =
       (step s op) := by
     intro op
     have : ∀ (ops : List Op) (a b : St), run a ops = some b → run a (ops ++ [op]) = step b op := by
@@ -235,8 +246,6 @@ theorem c17_main_code_restored (t : Text) (marks : List Bool) (indep : Bool) (k 
         | some a' => simp [hs] at h ⊢; exact ih a' b h
     simp only [List.cons_append, run, step_separate, Option.bind_some]
     exact this _ _ _ hrun
-  have hcons : ∀ op, (Op.separate marks indep :: (List.replicate k Op.next ++ [op])) =
-      (Op.separate marks indep :: List.replicate k Op.next ++ [op]) := by intro op; simp
   cases viaHook
   · refine ⟨{ s with subs := s.subs.dropLast, main := t }, ?_, rfl, by simp [hact.subs]⟩
     simp only [Bool.false_eq_true, ↓reduceIte]
@@ -304,6 +313,86 @@ theorem c17_cumulative_prefix (t : Text) (marks : List Bool) (n : Nat) (r : Nat)
   subst h1
   exact splitLines_append_prefix A B r hin
 
+/-! #### Patterns whose group also captures the separator's newline -/
+
+theorem c17_lossless_nl (t : Text) (marks : List Bool) : concat (sectionsOfMode true t marks) = t := by
+  unfold sectionsOfMode splitMode
+  simp only [↓reduceIte]
+  rw [concat_splitGoNL]
+  simp [pendingText, zipMarks_fst, joinLines_splitLines]
+
+theorem sepsEndNL_get (l : List Text) (h : sepsEndNL l = true) (k : Nat) (m : Text) (hm : l[2 * k + 1]? = some m) :
+    m.getLast? = some '\n' := by
+  induction k generalizing l with
+  | zero =>
+    match l, h with
+    | [_], _ => simp at hm
+    | _ :: m0 :: rest, h =>
+      simp at hm; subst hm
+      simp only [sepsEndNL, Bool.and_eq_true, beq_iff_eq] at h; exact h.1
+  | succ j ih =>
+    match l, h with
+    | [_], _ => simp at hm
+    | c0 :: m0 :: rest, h =>
+      simp only [sepsEndNL, Bool.and_eq_true] at h
+      have e : 2 * (j + 1) + 1 = (2 * j + 1) + 1 + 1 := by omega
+      rw [e] at hm
+      simp only [List.getElem?_cons_succ] at hm
+      exact ih rest h.2 hm
+
+theorem concat_take_succ (l : List Text) (n : Nat) (m : Text) (hm : l[n]? = some m) :
+    concat (l.take (n + 1)) = concat (l.take n) ++ m := by
+  induction l generalizing n with
+  | nil => simp at hm
+  | cons c cs ih =>
+    cases n with
+    | zero => simp at hm; subst hm; simp [concat]
+    | succ n =>
+      simp only [List.getElem?_cons_succ] at hm
+      have := ih n hm
+      simp only [concat, List.take_succ_cons, List.foldr_cons] at this ⊢
+      rw [this, List.append_assoc]
+
+/-- In this mode a later section starts at the beginning of a line, so line `r` (1 ≤ r) of the presented
+    chunk is line `offset + r` of the file. -/
+theorem c17_line_is_whole_file_line_nl (t : Text) (marks : List Bool) (k : Nat) (c : Text)
+    (hc : (sectionsOfMode true t marks)[2 * (k + 1)]? = some c) (r : Nat) (hr : 1 ≤ r) (hin : r ≤ countNL c) :
+    lineAt t (countNL (concat ((sectionsOfMode true t marks).take (2 * (k + 1)))) + r) = lineAt c r := by
+  generalize hsecs : sectionsOfMode true t marks = secs at hc
+  have hloss : concat secs = t := by rw [← hsecs]; exact c17_lossless_nl t marks
+  have hseps : sepsEndNL secs = true := by
+    rw [← hsecs]; unfold sectionsOfMode splitMode; simp only [↓reduceIte]; exact sepsEndNL_splitGoNL _ _ _
+  have hlt : 2 * (k + 1) < secs.length := by
+    rcases Nat.lt_or_ge (2 * (k + 1)) secs.length with h | h
+    · exact h
+    · rw [List.getElem?_eq_none h] at hc; cases hc
+  -- the separator just before the chunk
+  obtain ⟨m, hm⟩ : ∃ m, secs[2 * k + 1]? = some m := ⟨secs[2 * k + 1], List.getElem?_eq_getElem (by omega)⟩
+  have hmend := sepsEndNL_get secs hseps k m hm
+  have hA : concat (secs.take (2 * (k + 1))) = concat (secs.take (2 * k + 1)) ++ m := by
+    have : 2 * (k + 1) = (2 * k + 1) + 1 := by omega
+    rw [this]; exact concat_take_succ secs (2 * k + 1) m hm
+  obtain ⟨m', rfl⟩ : ∃ m', m = m' ++ ['\n'] := by
+    rcases List.eq_nil_or_concat m with h | ⟨m', x, h⟩
+    · subst h; simp at hmend
+    · subst h; simp at hmend; subst hmend; exact ⟨m', by simp⟩
+  have hB : ∃ B, concat (secs.take (2 * (k + 1))) ++ c ++ B = t := by
+    have h1 := concat_take_drop secs (2 * (k + 1))
+    rw [hloss] at h1
+    have hd : secs.drop (2 * (k + 1)) = c :: secs.drop (2 * (k + 1) + 1) := by
+      rw [List.drop_eq_getElem_cons hlt]
+      congr 1
+      rw [List.getElem?_eq_getElem hlt] at hc
+      exact Option.some.inj hc
+    rw [hd] at h1
+    refine ⟨concat (secs.drop (2 * (k + 1) + 1)), ?_⟩
+    simp only [concat, List.foldr_cons] at h1 ⊢
+    rw [List.append_assoc]; exact h1
+  obtain ⟨B, hBt⟩ := hB
+  rw [hA, ← List.append_assoc] at hBt ⊢
+  rw [← hBt]
+  exact lineAt_section_at_line_start (concat (secs.take (2 * k + 1)) ++ m') c B r hr hin
+
 /- Non-vacuity (evaluated tests). -/
 def demo : Text := "a=1\n##### Part 1\nb=2\nc=3\n##### Part 2\nd=4".toList
 def demoMarks : List Bool := [false, true, false, false, true, false]
@@ -313,5 +402,10 @@ def demoMarks : List Bool := [false, true, false, false, true, false]
 #guard lineAt demo (1 + 3) == some "c=3".toList && lineAt "\nb=2\nc=3\n".toList 3 == some "c=3".toList
 #guard (run { main := demo } [.separate demoMarks true, .next, .next, .next]).map (fun s => (s.main == demo, s.notEnough))
         == some (true, [(3, 2)])
+-- the group captures the newline: separator chunks end with it, the next chunk starts at a line start
+#guard (sectionsOfMode true demo demoMarks).map String.ofList == ["a=1\n", "##### Part 1\n", "b=2\nc=3\n", "##### Part 2\n", "d=4"]
+#guard (run { main := demo } [.separate demoMarks true true, .next]).map (fun s => (String.ofList s.main, s.offset))
+        == some ("b=2\nc=3\n", 2)
+#guard lineAt demo (2 + 2) == some "c=3".toList && lineAt "b=2\nc=3\n".toList 2 == some "c=3".toList
 
 end Pedal.Sections
